@@ -395,6 +395,102 @@ def real_layout(ahab):
     return " ".join(parts) + f" total={len(ahab)} start={ahab.start_real_image_address}"
 
 
+def real_relayout(ahab):
+    """Phase 3: layout numbers + size / container-relative offset / hash field / IV field / stored length of every entry."""
+    parts = []
+    for ix, c in enumerate(ahab.ahab_containers):
+        sb = c.signature_block
+        parts.append(f"c{ix} base={c.chip_config.container_offset} len={c.header_length()} sbo={c._signature_block_offset} "
+                     f"srk={sb._srk_assets_offset} sig={sb.signature_offset} cert={sb._certificate_offset} blob={sb._blob_offset} "
+                     f"sblen={len(sb)} imgs=" + ",".join(
+                         f"{e.image_offset}:{e.image_size}:{e._image_offset}:{bytes(e.image_hash).hex()}:{bytes(e.image_iv).hex()}:{len(e.image)}"
+                         for e in c.image_array))
+    return " ".join(parts) + f" total={len(ahab)} start={ahab.start_real_image_address}"
+
+
+def signature_ranges(ahab):
+    """absolute byte ranges holding signature containers (random for ECDSA): [signature offset, next present block / end)"""
+    out = []
+    for c in ahab.ahab_containers:
+        sb = c.signature_block
+        if not sb or not sb.signature_offset:
+            continue
+        b0 = c.chip_config.container_offset + c._signature_block_offset
+        nxt = [x for x in (sb._certificate_offset, sb._blob_offset) if x and x > sb.signature_offset]
+        out.append((b0 + sb.signature_offset, b0 + (min(nxt) if nxt else len(sb))))
+    return out
+
+
+def resign_flow(cx, case, cfg, binary, tag):
+    """Phase 3 (re-sign flow): `update_fields()` twice is `update_fields()` once.  On a FRESH object of the same configuration:
+    second update must not raise, must keep every layout number, every entry's offset / size / hash / IV / stored bytes,
+    the data to sign of every signed container, and the exported file outside the signature containers; verify() stays clean.
+    Correspondence: the model's `update2` (Model/AhabResign.lean) against the real second state."""
+    from spsdk.image.ahab.ahab_image import AHABImage
+    s = cx.s_export
+    inp = (case, "resign")
+    r = pyres(AHABImage.load_from_config, cfg, [cx.scratch])
+    if r[0] != "ok":
+        return
+    a = r[1]
+    if pyres(a.update_fields)[0] != "ok":
+        return
+    first = real_relayout(a)
+    sd1 = [bytes(c.get_signature_data()) if cc["srk"] else b"" for c, cc in zip(a.ahab_containers, case["containers"])]
+    imgs1 = [[bytes(e.image) for e in c.image_array] for c in a.ahab_containers]
+    r2 = pyres(a.update_fields)
+    if not s.expect(r2[0] == "ok", inp, "a second update_fields() raises on an updated AHAB image", r2):
+        return
+    second = real_relayout(a)
+    s.expect(second == first, inp, "a second update_fields() moves an image or changes a length / size / hash / IV (re-sign is not idempotent)",
+             first_diff(second, first))
+    sd2 = [bytes(c.get_signature_data()) if cc["srk"] else b"" for c, cc in zip(a.ahab_containers, case["containers"])]
+    s.expect(sd2 == sd1, inp, "the data to sign changes when update_fields() runs again", [len(x) for x in sd2])
+    imgs2 = [[bytes(e.image) for e in c.image_array] for c in a.ahab_containers]
+    s.expect(imgs2 == imgs1, inp, "the stored image bytes change when update_fields() runs again (e.g. encrypted twice)")
+    rx = pyres(a.export)
+    if s.expect(rx[0] == "ok", inp, "export() refuses after a second update_fields()", rx):
+        b2 = bytes(rx[1])
+        rng_ = signature_ranges(a)
+        diff = [i for i in range(min(len(b2), len(binary))) if b2[i] != binary[i] and not any(lo <= i < hi for lo, hi in rng_)]
+        s.expect(len(b2) == len(binary) and not diff, inp,
+                 "the file exported after a second update_fields() differs from the first one outside the signature containers",
+                 {"first_difference": diff[:1], "len": (len(b2), len(binary))})
+    v = pyres(a.verify)
+    s.expect(v[0] == "ok" and not verifier_errors(v[1]), inp, "verify() reports an image as erroneous after a second update_fields()",
+             v[0] if v[0] != "ok" else verifier_errors(v[1]))
+    if cx.drv is not None:
+        got = cx.drv.ask("relayout")
+        s.compare(inp, "ok:" + second, got, "state after the second update_fields() differs from the model (update2)")
+
+
+def zero_fill_oracle(cx, case, ahab, binary):
+    """Phase 3: every byte in front of the first image that no container occupies is zero - in particular the unused container
+    slots hold no phantom container head (`unused_slots_zero` / `no_phantom_container`)."""
+    s = cx.s_export
+    offs = [e.image_offset for c in ahab.ahab_containers for e in c.image_array]
+    if not offs:
+        return
+    first = min(min(offs), len(binary))
+    covered = [(c.chip_config.container_offset, c.chip_config.container_offset + c.header_length()) for c in ahab.ahab_containers]
+    pos, bad = 0, None
+    for lo, hi in sorted(covered) + [(first, first)]:
+        lo = min(lo, first)
+        if pos < lo and binary[pos:lo].count(0) != lo - pos:
+            bad = next(i for i in range(pos, lo) if binary[i])
+            break
+        pos = max(pos, min(hi, first))
+    s.expect(bad is None, (case, "zero-fill"), "a byte in front of the first image and outside every container is not zero "
+             "(unused container slots must be zero filled)", bad)
+    csize = 0x400 if case["ver"] == 1 else 0x4000
+    tagv = 0x87
+    for m in range(len(ahab.ahab_containers), 4):
+        b = m * csize
+        if b + 16 <= first:
+            s.expect(binary[b + 3] != tagv, (case, "phantom", m), "an unused container slot starts with a container tag", binary[b:b + 4].hex())
+
+
+
 # ------------------------------------------------------------------------------------------------ independent signature check
 def indep_verify(kt, used, data, sig, key=None):
     """Verify with `cryptography` and the key FILE the configuration named - nothing from spsdk.crypto."""
@@ -633,6 +729,9 @@ def _run_case(cx, case, tag):
         return None
     binary = bytes(rexp[1])
     fenc = "C06-encrypted-size-alignment" if f_encrypted_size_alignment(case, row) else None
+    # ---------------- Phase 3: zero fill of the unused slots; the re-sign flow (update_fields twice) on a fresh object
+    zero_fill_oracle(cx, case, ahab, binary)
+    resign_flow(cx, case, cfg, binary, tag)
     # ---------------- parse back, equality, verify, re-export
     a2 = AHABImage(case["family"], case["revision"], case["tm"])
     rp = pyres(a2.parse, binary)
